@@ -140,3 +140,21 @@ Theorem pages_switches_restored :
   forall P s0, covers P s0 = true -> forall mods, sw_equiv (sw_pages P s0 mods) s0.
 Proof. exact pages_switches_restored_lemma. Qed.
 Print Assumptions pages_switches_restored.
+
+(* the file-writing step (translated from docs/build.py on every run): for the operation sequences in the proved list
+   (`known_exact`, decided by vm_compute on the translated sequences) the page holds exactly the new text afterwards,
+   whatever it held before ... *)
+Theorem known_exact_sound :
+  forall w, known_exact w = true -> forall old new, file_write w old new = Some new.
+Proof. exact known_exact_sound_lemma. Qed.
+Print Assumptions known_exact_sound.
+
+(* ... hence after generation the directory maps every page to its text and leaves every other file alone,
+   for EVERY initial content of the output directory *)
+Theorem generation_writes_every_page :
+  forall w, (forall old new, file_write w old new = Some new) ->
+  forall pages d0, NoDup (map fst pages) ->
+    (forall p t, In (p, t) pages -> dir_get p (generate w pages d0) = Some t)
+    /\ (forall q, ~ In q (map fst pages) -> dir_get q (generate w pages d0) = dir_get q d0).
+Proof. exact generation_writes_every_page_lemma. Qed.
+Print Assumptions generation_writes_every_page.
